@@ -385,7 +385,8 @@ func (c *XAConn) commitErrorHandle(ctx context.Context, cause error) error {
 }
 
 func (c *XAConn) ShouldBeHeld() bool {
-	return c.res.IsShouldBeHeld() || (c.res.GetDbType().String() != "" && c.res.GetDbType() != types.DBTypeUnknown)
+	// only servers that cannot finish a prepared branch from another session need the connection
+	return c.res.IsShouldBeHeld()
 }
 
 func (c *XAConn) checkTimeout(ctx context.Context, now time.Time) error {
